@@ -173,8 +173,10 @@ def notify_overlapping(r, rounds):
                 eg.values[1], eg.values[2], eg.values[3] = b"x", b"yz", b""
                 egs.append(eg)
             eps = [H.IPv4EndpointOption(address=ipaddress.IPv4Address("10.0.0.%d" % (1 + k // 2)), l4proto=H.L4Protocols.UDP, port=4000 + k) for k in range(3)]
+            # the SAME address and port named by a TCP option: another subscriber option, the same destination on the wire
+            eps.append(H.IPv4EndpointOption(address=ipaddress.IPv4Address("10.0.0.1"), l4proto=H.L4Protocols.TCP, port=4000))
             for _ in range(rounds):
-                burst = [(r.randrange(2), r.randrange(3) if r.random() < 0.4 else 0, [r.choice([1, 2, 3]) for _ in range(r.randint(1, 4))]) for _ in range(r.randint(2, 5))]
+                burst = [(r.randrange(2), r.randrange(4) if r.random() < 0.5 else 0, [r.choice([1, 2, 3]) for _ in range(r.randint(1, 4))]) for _ in range(r.randint(2, 5))]
                 plan.append(burst)
                 await asyncio.gather(*[egs[g]._notify_single(eps[e], evs, "t") for g, e, evs in burst])
         loop.run_until_complete(go())
